@@ -21,6 +21,15 @@ type inv struct {
 	A      int    `json:"a,omitempty"`   // argument
 	K      int    `json:"k,omitempty"`   // cancelled: the k-th tick of the invocation cancels its own context
 	Inc    int    `json:"inc,omitempty"` // RunCode: x := Inc ; Run: x = x + Inc
+	// flavour "mod": the behaviour happens while the top-level code of a module is being evaluated by
+	// an import. Mod is the module the invocation imports (ma, mb = imports ma, mc), FailIn the module
+	// whose body misbehaves (mb may import a failing ma, or fail itself after ma was imported), ModB the
+	// behaviour code the host builtin modbeh() hands to that body, Where whether the import statement is
+	// at top level of the code / piece or inside a function.
+	Mod    string `json:"mod,omitempty"`
+	FailIn string `json:"fail_in,omitempty"`
+	ModB   int    `json:"mod_b,omitempty"`
+	Where  string `json:"where,omitempty"` // top | fn
 	// SameCode: RunCode passes the very same *compiler.Code object as the last RunCode with identical source
 	SameCode bool `json:"same_code,omitempty"`
 	// Background: the invocation gets context.Background() (no Done channel, hence no watcher)
@@ -48,6 +57,9 @@ func (h *history) key() string {
 	}
 	for _, v := range h.Invs {
 		fmt.Fprintf(&b, "/%s.%s.%s", v.API, v.Beh, v.Flavor)
+		if v.Flavor == "mod" {
+			fmt.Fprintf(&b, ".%s-%s-fail-in-%s-b%d", v.Where, v.Mod, v.FailIn, v.ModB)
+		}
 		if v.D > 0 {
 			fmt.Fprintf(&b, ".d%d", v.D)
 		}
@@ -85,13 +97,13 @@ var behaviours = []string{"value", "error", "panic", "sovf", "fovf", "cancelled"
 var flavours = map[string][]string{
 	"value": {"plain", "tick", "tick", "inc", "try", "import", "callback"},
 	"error": {"index", "mid", "loop", "switch", "raise", "top", "under-defers"},
-	"panic": {"div", "mod", "closure", "div-under-defers", "callback-under-defers", "defer-fails-during-panic"},
+	"panic": {"div", "mod", "closure", "div-under-defers", "callback-under-defers", "defer-fails-during-panic", "mod", "mod", "mod"},
 	"sovf":  {"fn", "top"},
 	// frame overflow: plain runaway recursion, and recursion whose every level has a pending script-level
 	// defer (of a function / of a closure), so that the overflow panic unwinds through the deferred calls;
 	// "defer-self": the deferred call itself recurses during the unwind
 	"fovf":      {"rec", "defer-fn", "defer-closure", "defer-fn", "defer-closure", "defer-self"},
-	"cancelled": {"tick"},
+	"cancelled": {"tick", "tick", "mod"},
 }
 
 const bigList = 1100 // more literal elements than the operand stack has slots
@@ -144,6 +156,18 @@ func fclos(a) { return func(b) { return func(c) { return a + b + c } } }
 func fclos3(a) { return fclos(a)(2)(3) }
 func frec(n) { return frec(n + 1) + 1 }
 func noop() { return 0 }
+func fimpa(a) {
+	import ma
+	return ma.val + a + x
+}
+func fimpb(a) {
+	import mb
+	return mb.bv + mb.get(1) + a + x
+}
+func fimpc(a) {
+	import mc
+	return mc.cv + a + x
+}
 func fdrec(n) {
 	defer noop()
 	return fdrec(n + 1) + 1
@@ -183,6 +207,18 @@ func fsovf(a) { return len(` + big + `) + a }
 // callOf returns the function name and the int arguments that realise the invocation's behaviour as a
 // call; top reports that the behaviour is written inline at top level instead (RunCode / Run only).
 func callOf(v *inv) (fn string, args []int, inline string) {
+	if v.Flavor == "mod" {
+		if v.Where == "top" && v.API != "Call" {
+			switch v.Mod {
+			case "mb":
+				return "", nil, fmt.Sprintf("import mb\nmb.bv + mb.get(1) + %d + x", v.A)
+			case "mc":
+				return "", nil, fmt.Sprintf("import mc\nmc.cv + %d + x", v.A)
+			}
+			return "", nil, fmt.Sprintf("import ma\nma.val + %d + x", v.A)
+		}
+		return "fimp" + v.Mod[1:], []int{v.A}, ""
+	}
 	switch v.Beh {
 	case "value":
 		switch v.Flavor {
@@ -281,6 +317,29 @@ func fillParams(r *mon.Rand, v *inv, session string, i int, withEvents bool) {
 	if v.Beh == "cancelled" {
 		v.K = mon.Pick(r, []int{1, 2, 50})
 	}
+	if v.Flavor == "mod" {
+		v.Mod = mon.Pick(r, []string{"ma", "mb", "mb", "mc"})
+		v.Where = mon.Pick(r, []string{"top", "fn"})
+		v.FailIn, v.ModB = "", 0
+		if v.Beh != "value" {
+			v.FailIn = v.Mod
+			if v.Mod == "mb" && r.Bool() {
+				v.FailIn = "ma" // nested: the module that mb imports fails
+			}
+			switch v.Beh {
+			case "fovf":
+				v.ModB = 1
+			case "panic":
+				v.ModB = mon.Pick(r, []int{2, 6})
+			case "error":
+				v.ModB = 3
+			case "cancelled":
+				v.ModB = 4
+			case "sovf":
+				v.ModB = 5
+			}
+		}
+	}
 	if v.API == "RunCode" && r.Chance(1, 4) {
 		v.SameCode = true
 	}
@@ -295,6 +354,7 @@ func fillParams(r *mon.Rand, v *inv, session string, i int, withEvents bool) {
 			v.OldWhen = "during"
 			if v.Beh == "value" {
 				v.Flavor = "tick"
+				v.Mod, v.FailIn, v.ModB, v.Where = "", "", 0, ""
 			}
 			if !ticks(v) {
 				v.OldWhen = "before"
@@ -412,6 +472,7 @@ func normalise(h *history) {
 			p := &h.Invs[j]
 			if p.API == "RunCode" && p.Beh == v.Beh && (v.OldWhen != "during" || ticks(p)) {
 				v.Flavor, v.D, v.A, v.K, v.Inc = p.Flavor, p.D, p.A, p.K, p.Inc
+				v.Mod, v.FailIn, v.ModB, v.Where = p.Mod, p.FailIn, p.ModB, p.Where
 				if v.OldWhen == "during" {
 					hi := v.A
 					if v.Beh == "cancelled" {
@@ -428,4 +489,87 @@ func normalise(h *history) {
 			v.SameCode = false
 		}
 	}
+}
+
+// ---------------------------------------------------------------------------------------
+// modules served by an in-memory importer. What a module body does is decided at run time by the host
+// builtin modbeh(name): 0 = nothing special (the import succeeds), 1 = frame overflow in a function
+// called from the body, 2 = integer division by zero at top level (Go panic), 3 = run-time error,
+// 4 = a long ticking loop (cancelled mid-import), 5 = operand-stack overflow at top level, 6 = division
+// by zero inside a function.
+
+func moduleSource(name, importLine, valLine string) string {
+	big := "[" + strings.Repeat("1, ", bigList-1) + "1]"
+	return importLine + `func mrec(n) { return mrec(n + 1) + 1 }
+func mdiv(a) { return 10 / a }
+b := modbeh("` + name + `")
+if b == 1 { mrec(0) }
+if b == 2 { 10 / (b - 2) }
+if b == 3 { [0][5] }
+if b == 4 {
+	for i := 0; i < 1000000; i++ { tick() }
+}
+if b == 5 { len(` + big + `) }
+if b == 6 { mdiv(0) }
+` + valLine + `
+func get(a) { return a + b }
+`
+}
+
+func moduleFiles() map[string]string {
+	return map[string]string{
+		"ma.risor": moduleSource("ma", "", "val := 40"),
+		"mb.risor": moduleSource("mb", "import ma\n", "bv := ma.val + 2"),
+		"mc.risor": moduleSource("mc", "", "cv := 7"),
+	}
+}
+
+// loadedAfter is the model of the VM's module cache: which modules are loaded after an invocation that
+// imports v.Mod, given the set loaded before. A RunCode starts with an empty cache (only the modules
+// supplied as globals survive resetForNewCode); Run and Call keep it.
+func loadedAfter(v *inv, before map[string]bool) map[string]bool {
+	l := map[string]bool{}
+	if v.API != "RunCode" {
+		for k := range before {
+			l[k] = true
+		}
+	}
+	if v.Flavor != "mod" {
+		return l
+	}
+	beh := func(m string) int {
+		if m == v.FailIn {
+			return v.ModB
+		}
+		return 0
+	}
+	var imp func(m string) bool
+	imp = func(m string) bool {
+		if l[m] {
+			return true
+		}
+		if m == "mb" && !imp("ma") {
+			return false
+		}
+		if beh(m) != 0 {
+			return false
+		}
+		l[m] = true
+		return true
+	}
+	imp(v.Mod)
+	return l
+}
+
+// preloadLines imports the given modules (in dependency order)
+func preloadLines(l map[string]bool) (string, int) {
+	var b strings.Builder
+	n := 0
+	for _, m := range []string{"ma", "mb", "mc"} {
+		if l[m] {
+			b.WriteString("import " + m + "\n")
+			n++
+		}
+	}
+	return b.String(), n
 }
